@@ -49,6 +49,6 @@ Next == Reset \/ A \/ D \/ R \/ Teardown \/ Skip
 Spec == Init /\ [][Next]_vars
 AtEnd == l = NRec + 1
 Brief == IF AtEnd THEN [l |-> l, bad |-> bad, nops |-> nops] ELSE [l |-> l]
-C19 == AtEnd => \A b \in bad : b[1] # "C19"
+C19 == AtEnd => NoneFor(bad, "C19")
 Report == AtEnd => PrintT(<<"ALLOC-REPORT", nops>>)
 ====================================================================================
